@@ -688,4 +688,48 @@ def completionLoop (em : Bytes) : List RLine → BodyEnd → Bytes → Nat → L
 def completionCall (em : Bytes) (httpFail : Bool) (ls : List RLine) (be : BodyEnd) : List Chunk × End :=
   if httpFail then ([], .err em) else completionLoop em ls be [] 0
 
+/-! ### `waitForStream` (server/routes.go): the non-streamed reply of pull / push / create (round 7)
+
+    The progress goroutines put `api.ProgressResponse` values and `gin.H{"error": …[, "status": …]}` on the
+    channel; `stream != false` hands the channel to `streamResponse` (one NDJSON line per item, status 200);
+    `stream == false` hands it to `waitForStream`, which answers with the first terminal item: a progress
+    message whose status is `success` (200, that message), an error item (its `status` or 500, its text — or
+    a fixed text when `error` is not a string), any other value (500), or — channel closed — 500. -/
+
+inductive PItem where
+  | progress (status : Bytes)
+  /-- `gin.H`: `msg` = the `error` member if it is a string, `status` = the `status` member if it is an int -/
+  | err (msg : Option Bytes) (status : Option Nat)
+  | other
+deriving DecidableEq, Repr
+
+/-- `success` -/
+def sSuccess : Bytes := [115, 117, 99, 99, 101, 115, 115]
+/-- `unexpected end of progress response` -/
+def sUnexpectedEnd : Bytes := [117, 110, 101, 120, 112, 101, 99, 116, 101, 100, 32, 101, 110, 100, 32, 111, 102, 32, 112, 114, 111, 103, 114, 101, 115, 115, 32, 114, 101, 115, 112, 111, 110, 115, 101]
+/-- `unexpected error format in progress response` -/
+def sBadErrFormat : Bytes := [117, 110, 101, 120, 112, 101, 99, 116, 101, 100, 32, 101, 114, 114, 111, 114, 32, 102, 111, 114, 109, 97, 116, 32, 105, 110, 32, 112, 114, 111, 103, 114, 101, 115, 115, 32, 114, 101, 115, 112, 111, 110, 115, 101]
+/-- `unexpected progress response` -/
+def sBadProgress : Bytes := [117, 110, 101, 120, 112, 101, 99, 116, 101, 100, 32, 112, 114, 111, 103, 114, 101, 115, 115, 32, 114, 101, 115, 112, 111, 110, 115, 101]
+
+/-- what `waitForStream` writes: the success message (200) or an error body -/
+inductive WaitReply where
+  | success
+  | error (status : Nat) (msg : Bytes)
+deriving DecidableEq, Repr
+
+def PItem.terminal : PItem → Bool
+  | .progress st => st == sSuccess
+  | _ => true
+
+/-- the reply a terminal item stands for -/
+def PItem.reply : PItem → WaitReply
+  | .progress _ => .success
+  | .err msg status => .error (status.getD 500) (msg.getD sBadErrFormat)
+  | .other => .error 500 sBadProgress
+
+def waitForStreamM : List PItem → WaitReply
+  | [] => .error 500 sUnexpectedEnd
+  | it :: rest => if it.terminal then it.reply else waitForStreamM rest
+
 end OllamaVerif.Stream
